@@ -43,6 +43,9 @@ CLAIMED = {
     "C10": ("generated moments of setcallback relative to in-flight items and to the peer's close, stream ends by close / end of exec / raising body, MultiChannel receive queues; deterministic scheduler with generated schedules and focused exhaustive single preemption; sequence oracle",
             "Generated conversations switch a consumer from receive() to a callback before, between or after the items and after the peer's close, with and without endmarker, on exec and sub channels on either side, plus MultiChannel.make_receive_queue over 2-4 members; both gateway ends run in-process under generated schedules. The oracle demands items-by-receive + callback log == sent sequence exactly, one endmarker last iff requested, and refusal of receive()/second setcallback afterwards. Connection loss as stream end is covered by C04.",
             "Sampling of schedules; focused single-preemption enumeration strided in the quick tier, complete in the thorough tier.", "3/C10"),
+    "C04": ("fault enumeration: every cut offset of generated frame streams against a reference frame parser, under the deterministic scheduler with generated waiters; focused exhaustive single preemption around connection loss; real SIGKILLs of workers and forwarders",
+            "Generated peer-to-survivor frame streams are cut after every byte offset and delivered with generated chunking through the real IO classes to a real Gateway with generated blocked receivers, waitclose callers, callbacks (also registered while the loss is processed), senders and dropped channels; the reference parser decides which frames arrived completely and hence exactly what every waiter must see before EOFError; 'blocks forever' is decided by the scheduler. A second part enumerates every single line-level preemption inside the loss/registration functions; a third kills real popen/socket/via workers (or the forwarding gateway) at generated moments.",
+            "Cut offsets are exhaustive per stream (streams up to 420 bytes); schedules sampled / single-preemption enumerated. Real part: 30 s bound.", "3/C04"),
 }
 
 NOT_APPLICABLE = {}
